@@ -67,6 +67,10 @@ static inline bool json_sv_eq_lit(iora_sv a, const char *lit, size_t len)
 size_t GJ_num_start;            /* ghost: offset at which the number token starts (bound by the contract to old(_pos)) */
 unsigned GJ_conv_calls;         /* ghost: number of conversion calls */
 typedef struct { const char *ptr; int ec; } json_fcres;
+#define JSON_EC_OUT_OF_RANGE 34   /* std::errc::result_out_of_range (ERANGE) */
+/* ghost record of the integer conversion and of the floating conversion, so that a contract can say WHICH result ends up in the value */
+_Bool GJ_fc_called; int GJ_fc_ec; int64_t GJ_fc_val;      /* from_chars: called?, its error code, the value it wrote (ec == 0 only) */
+unsigned GJ_sd_calls; double GJ_sd_val;                  /* strtod: number of calls, the value returned last */
 #ifndef IORA_NATIVE
 double nondet_double(void);
 #endif
@@ -108,7 +112,11 @@ static inline double json_strtod_sv(iora_sv s, const JsonParser *self)
 {
   IORA_ASSERT(JSON_TOKEN_IS(self, s.p, s.n), "strtod is applied to exactly the scanned number token [start,_pos)");
   GJ_conv_calls++;
-  return nondet_double();
+  double d = nondet_double();
+  IORA_ASSUME(d == d);                 /* environment model: strtod of a number token is never NaN */
+  if (GJ_sd_calls < 1000) GJ_sd_calls++;
+  GJ_sd_val = d;
+  return d;
 }
 static inline json_fcres json_from_chars_i64(const char *first, const char *last, int64_t *out, const JsonParser *self)
 {
@@ -119,8 +127,11 @@ static inline json_fcres json_from_chars_i64(const char *first, const char *last
   IORA_ASSERT(!(GJ_num_start <= GK && GK < self->_pos) || JSON_IS_DIGIT(self->_text.p[GK]) || (GK == GJ_num_start && self->_text.p[GK] == (char)45),
               "from_chars (integer path) receives a pure integer -?digits: no '.', 'e', 'E' in the scanned token");
   GJ_conv_calls++;
-  json_fcres r; r.ptr = last; r.ec = nondet_int();
-  if (r.ec == 0) *out = nondet_i64();
+  /* environment model of std::from_chars on a pure integer token (asserted above): either it converts (ec == 0, *out written) or the
+   * value does not fit int64 (result_out_of_range, *out NOT written); invalid_argument cannot occur on -?1*DIGIT */
+  json_fcres r; r.ptr = last; r.ec = nondet_bool() ? 0 : JSON_EC_OUT_OF_RANGE;
+  GJ_fc_called = 1; GJ_fc_ec = r.ec;
+  if (r.ec == 0) { *out = nondet_i64(); GJ_fc_val = *out; }
   return r;
 }
 #endif
